@@ -66,7 +66,7 @@ def breadth_inputs(quick, r):
     suite, manual = C06.suite_inputs()
     pool = [t for t in suite + manual + list(C06.FORMS) if not RANDOM_OR_CLOCK.search(t) and "\n" not in t and len(t) <= 100]
     pool = sorted(set(pool))
-    pick = r.sample(pool, min(len(pool), 260 if quick else 900))
+    pick = r.sample(pool, min(len(pool), 260 if quick else 700))
     texts = list(dict.fromkeys([x for x in FUNC_EQ if not RANDOM_OR_CLOCK.search(x)] + pick))
     return [(f"breadth[{t}]", t) for t in texts]
 
@@ -167,15 +167,15 @@ def run(ctx):
             if p is None: continue
             n = p["polls"]
             if name in is_breadth:
-                ks = set(range(0, min(n, 150 if quick else 250))) | {n}
+                ks = set(range(0, min(n, 150 if quick else 200))) | {n}
                 if mode == "preview":
                     ks = set(list(sorted(ks))[:: 4])
                 for k in sorted(ks):
                     lines.append(f"{mode} {k} {hx(t)}"); meta.append((name, mode, k, t))
                 continue
-            ks = set(range(0, min(n, 40 if quick else 200)))
-            ks |= {n - 1 - i for i in range(0, min(n, 25 if quick else 100))}
-            ks |= {r.randrange(n) for _ in range(30 if quick else 300)} if n > 0 else set()
+            ks = set(range(0, min(n, 40 if quick else 120)))
+            ks |= {n - 1 - i for i in range(0, min(n, 25 if quick else 40))}
+            ks |= {r.randrange(n) for _ in range(30 if quick else 100)} if n > 0 else set()
             ks |= {n, n + 5}
             if mode == "preview":
                 ks = set(list(sorted(ks))[:: 3])
@@ -183,7 +183,15 @@ def run(ctx):
                 lines.append(f"{mode} {k} {hx(t)}"); meta.append((name, mode, k, t))
     outs = ctx.run_lines_robust(h, ["intr"], lines, env={"HARNESS_LINE_TIMEOUT_S": "120"})
     # the driver materialises each synthetic trace (up to millions of events for the heaviest inputs): feed it in batches of bounded total size
-    mlines = [(ref[(m[1], m[0])]['polls'], m[2]) for m in meta]
+    # the synthetic trace the model runs is uniform: for firing points beyond CAP polls the same question is asked CAP polls into a trace
+    # (a 17-million-poll run would otherwise make the driver build a 50-million-event list); `shift` maps the model's answer back
+    CAP = 300_000
+    def capped(n, k):
+        if k <= CAP: return (n, k, 0)
+        d = k - CAP
+        return (max(n - d, 0), CAP, d)
+    mtriples = [capped(ref[(m[1], m[0])]['polls'], m[2]) for m in meta]
+    mlines = [(n, k) for n, k, _ in mtriples]
     model, batch, weight = [], [], 0
     def flush():
         nonlocal batch, weight
@@ -197,6 +205,10 @@ def run(ctx):
         if weight > 6_000_000 or len(batch) >= 5000: flush()
     flush()
     model += ["<missing>"] * (len(lines) - len(model))
+    def unshift(mo, d):
+        mm = re.match(r"(interrupted|finished) polls=(\d+)(.*)", mo)
+        return f"{mm.group(1)} polls={int(mm.group(2)) + d}{mm.group(3)}" if (mm and d) else mo
+    model = [unshift(mo, tr[2]) for mo, tr in zip(model, mtriples)]
     for (name, mode, k, t), o, mo in zip(meta, outs, model):
         dist["firing_points"] += 1
         if mode == "preview": dist["preview_runs"] += 1
@@ -263,7 +275,7 @@ def run(ctx):
                       "three-statement programs: an uninterrupted reference run (poll count, largest time between polls), then the predicate made to fire at every early / late call and at random calls in between, for "
                       "evaluate and for preview: result must be 'interrupted' or the reference result, return must be prompt, exactly k+1 polls are made (Lean trace machine), `pre` intact, context usable, each of "
                       "va/vb/vc unset or complete and in statement order, `_`/`ans` untouched by an interrupted run, previews traceless", len(ref_lines) + len(lines), len(set(lines)), dist, lines[:3], time.time() - t0)
-    return ctx.finish(rule="quick: ~95 firing points per input x 34 inputs x {eval, preview/3}; thorough: ~600 per input x 40 inputs")
+    return ctx.finish(rule="quick: ~95 firing points per heavy input x 34 inputs x {eval, preview/3} + every poll (<= 150) of ~290 light inputs; thorough: ~260 per heavy input x 40 inputs + every poll (<= 200) of ~730 light inputs")
 
 def replay(ctx, rep):
     print(rep["first"]); return 0
